@@ -46,7 +46,11 @@ TARGETS = [
     ("localcider/backend/sequence.py", "Sequence", "linearDistOfHydropathy", "flanksHydro", "C10Src", {"ty": "Int", "outputs": ["flank_start", "flank_end", "nblobs"]}),
     ("localcider/backend/sequence.py", "Sequence", "linearDistOfHydropathy_2", "flanksHydro2", "C10Src", {"ty": "Int", "outputs": ["flank_start", "flank_end", "nblobs"]}),
     ("localcider/backend/sequence.py", "Sequence", "linearDenistyOfAAs", "flanksDensity", "C10Src", {"ty": "Int", "outputs": ["flank_start", "flank_end", "nblobs"]}),
-
+    # the per-residue recoding decision inside the loops of Omega / Omega_seq / kappa_X (Char-valued), plus what surrounds the loop
+    ("localcider/backend/sequence.py", "Sequence", "Omega", "omegaCharSrc", "C06Src", {"charloop": 0}),
+    ("localcider/backend/sequence.py", "Sequence", "Omega_seq", "omegaSeqCharSrc", "C06Src", {"charloop": 0}),
+    ("localcider/backend/sequence.py", "Sequence", "kappa_X", "kappaX2CharSrc", "C06Src", {"charloop": 0}),
+    ("localcider/backend/sequence.py", "Sequence", "kappa_X", "kappaX1CharSrc", "C06Src", {"charloop": 1}),
 ]
 # the interface (parameter list) each translated fragment had when the CxxSrc proofs were written: the quantities of the object the text
 # reads.  A rewrite that reads other quantities (a new private helper, a cached count, ...) no longer FITS the statement of the proof -
@@ -59,6 +63,7 @@ EXPECTED_PARAMS = {
     "mncSrc": ["NCPR"], "deltaSrc": ["deltaForm_5", "deltaForm_6"], "deltaTermSrc": ["blob", "bpos", "bneg", "bloblen", "sigma", "nblobs"],
     "flanksNCPR": ["bloblen", "len"], "flanksFCR": ["bloblen", "len"], "flanksSigma": ["bloblen", "len"], "flanksHydro": ["bloblen", "len"],
     "flanksHydro2": ["bloblen", "len"], "flanksDensity": ["bloblen", "targetAAs", "len"],
+    "omegaCharSrc": ["res"], "omegaSeqCharSrc": ["res"], "kappaX2CharSrc": ["in_grp1", "in_grp2"], "kappaX1CharSrc": ["in_grp1"],
 }
 SKIP_CALLS = {"warning_message", "status_message", "print"}
 
@@ -231,6 +236,83 @@ class Tr:
         raise Unsupported("statement %s" % type(s).__name__)
 
 
+class CharLoop:
+    """`for res in self.seq:` whose body is one if/elif/else chain; every branch appends ONE character constant to the accumulator.
+    Conditions: `res == 'c'`, `res in <name>` (a Bool parameter in_<name>), and / or / not.  Result: Char-valued Lean function."""
+
+    def __init__(self, loop):
+        if not (isinstance(loop.target, ast.Name) and isinstance(loop.iter, ast.Attribute) and isinstance(loop.iter.value, ast.Name)
+                and loop.iter.value.id == "self" and loop.iter.attr == "seq" and not loop.orelse):
+            raise Unsupported("not a loop over self.seq")
+        self.var = loop.target.id
+        self.params, self.types, self.acc = [], {}, None
+        self.body = self.block(loop.body, 1)
+
+    def param(self, name, ty):
+        if name not in self.params:
+            self.params.append(name)
+            self.types[name] = ty
+        return name
+
+    def cond(self, e):
+        if isinstance(e, ast.BoolOp):
+            return "(" + (" ∧ " if isinstance(e.op, ast.And) else " ∨ ").join(self.cond(v) for v in e.values) + ")"
+        if isinstance(e, ast.UnaryOp) and isinstance(e.op, ast.Not):
+            return "(¬ %s)" % self.cond(e.operand)
+        if isinstance(e, ast.Compare) and len(e.ops) == 1 and isinstance(e.left, ast.Name) and e.left.id == self.var:
+            op, r = e.ops[0], e.comparators[0]
+            if isinstance(op, (ast.Eq, ast.NotEq)) and isinstance(r, ast.Constant) and isinstance(r.value, str) and len(r.value) == 1 \
+                    and r.value.isalnum():
+                return "(%s %s '%s')" % (self.param("res", "Char"), "=" if isinstance(op, ast.Eq) else "≠", r.value)
+            if isinstance(op, (ast.In, ast.NotIn)) and isinstance(r, ast.Name):
+                return "(%s = %s)" % (self.param("in_" + r.id, "Bool"), "true" if isinstance(op, ast.In) else "false")
+        raise Unsupported("per-residue condition %s" % ast.dump(e)[:60])
+
+    def block(self, stmts, ind):
+        pad = "  " * ind
+        if len(stmts) != 1:
+            raise Unsupported("per-residue body is not a single statement")
+        s = stmts[0]
+        if isinstance(s, ast.If):
+            if not s.orelse:
+                raise Unsupported("a residue may append nothing")
+            c = self.cond(s.test)
+            return pad + "if %s then\n%s\n%selse\n%s" % (c, self.block(s.body, ind + 1), pad, self.block(s.orelse, ind + 1))
+        v = None
+        if isinstance(s, ast.Assign) and len(s.targets) == 1 and isinstance(s.targets[0], ast.Name) and isinstance(s.value, ast.BinOp) \
+                and isinstance(s.value.op, ast.Add) and isinstance(s.value.left, ast.Name) and s.value.left.id == s.targets[0].id:
+            v, acc = s.value.right, s.targets[0].id
+        elif isinstance(s, ast.AugAssign) and isinstance(s.op, ast.Add) and isinstance(s.target, ast.Name):
+            v, acc = s.value, s.target.id
+        if v is None or not (isinstance(v, ast.Constant) and isinstance(v.value, str) and len(v.value) == 1 and v.value.isalnum()):
+            raise Unsupported("branch does not append one character constant")
+        if self.acc not in (None, acc):
+            raise Unsupported("two accumulators")
+        self.acc = acc
+        return pad + ".ok '%s'" % v.value
+
+
+def loop_frame(f, loop, acc):
+    """what surrounds the loop, normalised: the accumulator's initial value and how the function's LAST statements use it"""
+    init = None
+    for n in ast.walk(f):
+        if isinstance(n, ast.Assign) and len(n.targets) == 1 and isinstance(n.targets[0], ast.Name) and n.targets[0].id == acc \
+                and n.lineno < loop.lineno and isinstance(n.value, ast.Constant):
+            init = n.value.value            # the last constant initialisation textually before the loop
+    alias, tail = {}, None
+    for s in f.body:
+        if isinstance(s, ast.Assign) and len(s.targets) == 1 and isinstance(s.targets[0], ast.Name) and isinstance(s.value, ast.Call) \
+                and s.lineno > loop.lineno:
+            alias[s.targets[0].id] = ast.unparse(s.value)
+        if isinstance(s, ast.Return):
+            r = s.value
+            if isinstance(r, ast.Call) and isinstance(r.func, ast.Attribute) and isinstance(r.func.value, ast.Name) and r.func.value.id in alias:
+                tail = "%s.%s(%s)" % (alias[r.func.value.id], r.func.attr, ", ".join(ast.unparse(a) for a in r.args))
+            else:
+                tail = ast.unparse(r) if r is not None else "None"
+    return "%r|%s" % (init, tail)
+
+
 def find_func(tree, cls, name):
     plain = name.split("__")[-1] if name.startswith("_" + cls + "__") else name
     for n in tree.body:
@@ -252,6 +334,21 @@ def main():
             args = [a.arg for a in f.args.args if a.arg != "self"]
             opt = rest_t[0] if rest_t else ()
             stmts = f.body
+            if isinstance(opt, dict) and "charloop" in opt:
+                loops = sorted((x for x in ast.walk(f) if isinstance(x, ast.For)), key=lambda x: x.lineno)
+                if len(loops) <= opt["charloop"]:
+                    raise Unsupported("loop %d not found" % opt["charloop"])
+                cl = CharLoop(loops[opt["charloop"]])
+                if lean_name in EXPECTED_PARAMS and cl.params != EXPECTED_PARAMS[lean_name]:
+                    raise Unsupported("the text now reads (%s), the proof is stated over (%s)" % (", ".join(cl.params), ", ".join(EXPECTED_PARAMS[lean_name])))
+                frame = loop_frame(f, loops[opt["charloop"]], cl.acc).replace("\\", "\\\\").replace('"', '\\"')
+                defs.append("/-- translated from %s:%s.%s (loop at line %d) -/\ndef %s %s : Except Unit Char :=\n%s\n\n"
+                            "/-- accumulator's initial value | how the function's last statement uses the recoded string -/\n"
+                            "def %sFrame : String := \"%s\"\n" % (
+                    path, cls, fn, loops[opt["charloop"]].lineno, lean_name,
+                    " ".join("(%s : %s)" % (p, cl.types[p]) for p in cl.params), cl.body, lean_name, frame))
+                info[lean_name] = cl.params
+                continue
             if isinstance(opt, dict) and opt.get("loop_body"):
                 loops = [x for x in f.body if isinstance(x, ast.For)]
                 if len(loops) != 1:
